@@ -86,8 +86,7 @@ def rule_header_first(ctx):
               "the header slot is allocated first (offset 0), the directory right after", "header allocation does not precede the directory allocation")
 
 
-def rule_bytes_before_dirent(ctx):
-    R = "C10/bytes-before-dirent"
+def rule_bytes_before_dirent(ctx, R="C10/bytes-before-dirent"):
     b = ctx.body(R, W2F)
     if b is None:
         return
